@@ -441,6 +441,12 @@ func (v *VC) evCall(x SCall, env *SpecEnv) TV {
 	case "isnil":
 		a := v.ev(x.Args[0], env)
 		return TV{T: fmt.Sprintf("(= %s %s)", a.T, zeroOfSort(v.sortTV(a))), Typ: tBool}
+	case "strsub":
+		a := v.ev(x.Args[0], env)
+		lo := v.ev(x.Args[1], env)
+		hi := v.ev(x.Args[2], env)
+		v.useStrSub()
+		return TV{T: fmt.Sprintf("(str.sub %s %s %s)", a.T, lo.T, hi.T), Typ: tString}
 	case "baseof":
 		a := v.ev(x.Args[0], env)
 		return TV{T: "(s-base " + a.T + ")", Sort: "Ptr"}
@@ -543,6 +549,7 @@ func (v *VC) evMethod(x SMethod, env *SpecEnv) TV {
 		ct.Used = true
 		v.note("pure interface method (result is a function of receiver and arguments): %s", key)
 		r := v.ufApp("uf_"+sanitize(key), sig, "Iface", append([]string{recv.T}, args...))
+		v.ufRangeAxiom("uf_"+sanitize(key), sig, "Iface")
 		return TV{T: r[0], Typ: sig.Results().At(0).Type()}
 	}
 	fnObj := sel.Obj().(*types.Func)
